@@ -24,6 +24,7 @@ type fixture struct {
 	Net     *networks.Network
 	Block   *core.Block
 	SU      *core.StateUpdate // nil when the test data ships no state update for this block
+	Wire    *starknet.Block   // the wire object (carries the commitments the network reported)
 	Format  string            // pre07 | post07 | 0.13.2 | 0.13.4
 	Unverif bool              // inside the network's documented unverifiable range
 }
@@ -55,6 +56,9 @@ func blockFormat(b *core.Block, net *networks.Network) (string, error) {
 	}
 }
 
+// fixture files left out because they contradict the canonical block file of their network
+var SkippedFixtures []string
+
 func readJSON(path string, v any) error {
 	raw, err := os.ReadFile(path)
 	if err != nil {
@@ -71,7 +75,7 @@ func mkFixture(name string, net *networks.Network, wb *starknet.Block, wsu *star
 	if err != nil {
 		return nil, fmt.Errorf("%s: adapt block: %w", name, err)
 	}
-	fx := &fixture{Name: name, Net: net, Block: b}
+	fx := &fixture{Name: name, Net: net, Block: b, Wire: wb}
 	if wsu != nil && wsu.BlockHash != nil && wsu.BlockHash.Equal(wb.Hash) {
 		su, err := sn2core.AdaptStateUpdate(wsu)
 		if err != nil {
@@ -91,8 +95,10 @@ func mkFixture(name string, net *networks.Network, wb *starknet.Block, wsu *star
 // loadFixtures returns every hash-carrying block of the feeder test data, sorted by
 // name. Errors are harness-infrastructure errors (unreadable test data).
 func loadFixtures() ([]*fixture, error) {
+	SkippedFixtures = nil
 	var out []*fixture
 	seen := map[string]bool{}
+	canonical := map[string]string{} // network/number -> hash according to block/<n>.json
 	for _, fn := range fixtureNets {
 		files, _ := filepath.Glob(filepath.Join(fixtureRoot, fn.dir, "block", "*.json"))
 		sort.Strings(files)
@@ -120,6 +126,7 @@ func loadFixtures() ([]*fixture, error) {
 			if fx != nil {
 				out = append(out, fx)
 				seen[fn.dir+"/"+fx.Block.Hash.String()+"/"+fmt.Sprint(fx.SU != nil)] = true
+				canonical[fmt.Sprintf("%s/%d", fn.dir, fx.Block.Number)] = fx.Block.Hash.String()
 			}
 		}
 		files, _ = filepath.Glob(filepath.Join(fixtureRoot, fn.dir, "state_update_with_block", "*.json"))
@@ -141,6 +148,13 @@ func loadFixtures() ([]*fixture, error) {
 				return nil, err
 			}
 			if fx == nil {
+				continue
+			}
+			// A network assigns one hash per number: a state_update_with_block file whose block
+			// contradicts block/<n>.json of the same network is hand-made test data (e.g.
+			// mainnet/state_update_with_block/16697.json), not ground truth.
+			if h, ok := canonical[fmt.Sprintf("%s/%d", fn.dir, fx.Block.Number)]; ok && h != fx.Block.Hash.String() {
+				SkippedFixtures = append(SkippedFixtures, fx.Name)
 				continue
 			}
 			// the same block with the same amount of information is already in the list
